@@ -123,7 +123,8 @@ Definition foreign (ctl : string) (es : list entry) := filter (fun e => negb (is
 
 (* routeStatusEqual / policyStatusEqual / snippetsFilterStatusEqual *)
 Definition entries_eq (ctl : string) (prev cur : list entry) : bool :=
-  forallb (fun pe => if is_own ctl pe then existsb (entry_eqb pe) cur else true) prev
+  Nat.eqb (List.length (own ctl prev)) (List.length (own ctl cur))
+  && forallb (fun pe => if is_own ctl pe then existsb (entry_eqb pe) cur else true) prev
   && forallb (fun ce => existsb (entry_eqb ce) prev) cur.
 
 Definition kinds_eqb := list_eqb (fun a b : string * option string =>
@@ -231,7 +232,9 @@ Definition erase_entry (e : entry) : entry :=
   Entry (e_ctlr e) (map (fun o => Some (deref o)) (e_key e)) 0 (map erase_cond (e_conds e)).
 Definition same_entry (a b : entry) : Prop := erase_entry a = erase_entry b.
 
-(* the two lists denote the same set of entries modulo transition time *)
+(* the two lists denote the same set of entries modulo transition time, and have the same number of entries (so that, the
+   computed entries being pairwise different, an entry stored twice makes the lists differ) *)
 Definition same_entry_set (a b : list entry) : Prop :=
-  (forall x, In x a -> exists y, In y b /\ same_entry x y) /\
-  (forall y, In y b -> exists x, In x a /\ same_entry y x).
+  ((forall x, In x a -> exists y, In y b /\ same_entry x y) /\
+   (forall y, In y b -> exists x, In x a /\ same_entry y x)) /\
+  List.length a = List.length b.
